@@ -116,16 +116,32 @@ def check_case(case, acc):
     from cardutil.cli import print_exception_details
     data, recs, raw_k = build(case)
     k, kind, enc = case['k'], case['kind'], case['enc']
-    acc.case((case['n'], k, kind, enc, case['blocked']), nontrivial=True,
+    acc.case((case['n'], k, kind, enc, case['blocked'], case.get('style')), nontrivial=True,
              outcome=kind if not kind.startswith('mut:') else 'mutation')
     rd = mciipm.IpmReader(io.BytesIO(data), encoding=enc, blocked=case['blocked'])
     got = []
     err = None
+    style = case.get('style', 'for')
     try:
-        for rec in rd:
-            got.append(rec)
-            if len(got) > case['n']:
-                break
+        if style == 'for':
+            for rec in rd:
+                got.append(rec)
+                if len(got) > case['n']:
+                    break
+        elif style == 'next_then_for':          # header = next(reader); for rec in reader: ...
+            got.append(next(rd))
+            for rec in rd:
+                got.append(rec)
+                if len(got) > case['n']:
+                    break
+        elif style == 'next_only':
+            while len(got) <= case['n']:
+                got.append(next(rd))
+        elif style == 'iter_each':              # a fresh iter() before every record
+            while len(got) <= case['n']:
+                got.append(next(iter(rd)))
+    except StopIteration:
+        pass
     except mciipm.MciIpmDataError as ex:
         err = ex
     except Exception as ex:
@@ -183,6 +199,10 @@ def enumerate_cases(tier, seed):
                 for enc in ('latin_1', 'cp500'):
                     for blocked in (False, True):
                         cases.append({'n': n, 'k': k, 'kind': kind, 'enc': enc, 'blocked': blocked})
+                        if kind in ('truncated', 'oversized_length', 'bad_mti', 'bad_pds', 'trailing_byte'):
+                            for style in ('next_then_for', 'next_only', 'iter_each'):
+                                cases.append({'n': n, 'k': k, 'kind': kind, 'enc': enc, 'blocked': blocked,
+                                              'style': style})
     for enc in ('latin_1', 'cp500'):
         for kind in mutation_kinds(enc):
             for k in (1, 2, 3):
@@ -192,7 +212,7 @@ def enumerate_cases(tier, seed):
 
 
 def tasks(tier, seed):
-    return [{'cases': ch} for ch in core.spread(enumerate_cases(tier, seed), 32)]
+    return [{'cases': ch} for ch in core.chunks(enumerate_cases(tier, seed), 32)]
 
 
 def run_task(task):
@@ -207,7 +227,8 @@ def run_task(task):
 def describe(tier, seed):
     return {
         'rule': 'files of n = 1..%d records x every faulty position k x fault kinds %s (truncated only for k = n) x '
-                '{VBS, 1014} x {latin_1, cp500}; plus, in 3-record files, every structural byte (MTI, bitmap, prefixes, PDS '
+                '{VBS, 1014} x {latin_1, cp500}, read with a for loop and (five kinds) with next() followed by a for loop, '
+                'next() only, and a fresh iter() before every record; plus, in 3-record files, every structural byte (MTI, bitmap, prefixes, PDS '
                 'tag/length, TLV tag/length) of record k x a 10-value alphabet for k = 1..3 (whenever reading then '
                 'fails, it must fail at k); records have distinct content. Oracle: exactly k-1 records are '
                 'delivered and equal the reference decode; then MciIpmDataError with record_number == k and '
